@@ -48,7 +48,7 @@ def gen_cases(rng, tier):
                       'dim': rng.randint(1, 3), 'dt': rng.choice([1e-15, 2e-15, 0.5e-15]),
                       # call history before the observed calls: 0 = fresh object; k > 0 = the object first holds frames [0,k), is analysed, and is then
                       # extended by the remaining frames (a continuation run)
-                      'pre': rng.randint(1, T - 1) if (T >= 3 and rng.random() < 0.3) else 0, 'plots': rng.random() < 0.15})
+                      'pre': rng.randint(1, T - 1) if (T >= 3 and rng.random() < 0.3) else 0, 'plots': rng.random() < 0.15, 'derived_first': rng.random() < 0.3})
     return cases
 
 
@@ -62,6 +62,9 @@ def impl(case):
         traj.extend(synth.make_traj(case['m'], ['Li'] * c.shape[1], c[k:], time_step=case['dt'], rot=rot))
     else:
         traj = synth.make_traj(case['m'], ['Li'] * c.shape[1], c, time_step=case['dt'], rot=rot)
+    if case.get('derived_first'):
+        # a drift-corrected copy / centre of mass / selection is made first and kept: the original must still answer by its own frames
+        _kept = (traj.apply_drift_correction(), traj.center_of_mass(), traj.filter('Li'), traj[1:])
     if case.get('plots'):
         synth.call_plots(traj, ['plot_displacement_per_atom', 'plot_displacement_per_element', 'plot_msd_per_element', 'plot_displacement_histogram', 'plot_frequency_vs_occurence', 'plot_vibrational_amplitudes'])          # figures are views: what follows must read the same
     guard = synth.InputGuard(trajectory=traj)
